@@ -22,6 +22,7 @@ EXPLANATION = (
     ' (R5) in the reshape dispatch `match (matrix, shape[0], shape[1])` every arm allocates its output with (rows, cols) = (second, third) pattern position.'
     " (R6) Value::convert_to (the scalar table behind option/set/table-column annotations): each arm builds the variant of its target kind from a single `as` cast to that kind's element type."
     ' (R7) the identity fast path of a matrix annotation (source handed back unchanged) is taken only under guards saying the requested shape list is empty or equal to the source shape and the element kinds are equal.'
+    " (R8) collection conversions are all-or-nothing: per-element convert_to results never feed an adaptor that discards the Nones (filter_map, flatten, filter ..) nor an `if let Some` push without a failing else."
 )
 
 ALLOWED = {
@@ -58,6 +59,12 @@ def norm_body(it):
 
 
 def run(F, rep, tier):
+    _run(F, rep, tier)
+    from rules.c12_allornothing import run_r8
+    run_r8(F, rep)
+
+
+def _run(F, rep, tier):
     crate = "mech_interpreter.lib"
     items = F.syn(crate)
     rep.rule("C12-R2", "element conversion impls are the `as` cast (or a frozen wrapper/to_string/identity form) between exactly their own two types")
